@@ -16,8 +16,8 @@ ASSUMPTIONS = ["the oracle network is part of the trusted base; a frame whose ge
                "RGB pipelines (is_rgb=True); keypoints >= 20 px from the border, animals >= 2.6 body sizes apart, nodes of an animal >= 9 px apart",
                "tolerance per axis in original pixels: (0.5*stride + a)/(input_scale*eff_scale) with a = 0.35 + the explicit integer-size rounding of the resizing steps (vf/e2e.py:tol); total up-scaling <= 2.5"]
 SHARDS = {"quick": 8, "thorough": 16}
-N = {"quick": 96, "thorough": 8000}
-BUDGET = {"quick": 110, "thorough": 1700}
+N = {"quick": 96, "thorough": 48000}
+BUDGET = {"quick": 110, "thorough": 600}
 TIMEOUT = {"quick": 800, "thorough": 3400}
 SELF_SHARDED = True
 KEY_LABELS = "labelsreader-path-skips-scaling-and-stride-padding"
